@@ -195,5 +195,55 @@ def body(case):
     return out
 
 
+# ------------------------------------------------------------------ a cast mapping the caller still holds
+def gen_held(r):
+    d = G.hostile_doc(r, 3)
+    rl = G.rule_for(r, d, mode="typed", cast_p=100, cond_depth=1, max_len=3, meaningful=True, jsonable=True)
+    return d, rl, r.coin()
+
+
+def body_held(case):
+    """Rule(path, condition, cast=m) with a mapping m the caller keeps; the rule is serialised, then the caller changes
+    m (the other cast).  Whether the rule follows is not stated; whatever it now does, its serialised form does the same:
+    the rebuilt rule gives the same verdict, failures and cast data."""
+    doc, rl, in_schema = case
+    out = Outcome()
+    ns = build.ns()
+    out.nontrivial = True
+    out.sample = f"{show(rl,300)} with a caller-held cast mapping, on {show(doc,150)}"
+    try:
+        first, second = (int, bool) if rl.cast == "int" else (bool, int)
+        held = {str: ns.ca.CAST_LOOKUP[(str, first)]}
+        robj = ns.r.Rule(path=build.build_path(rl.path), condition=build.build_cond(rl.cond), cast=held)
+        holder = ns.s.Schema([robj]) if in_schema else robj
+        holder.to_json_like()
+        held[str] = ns.ca.CAST_LOOKUP[(str, second)]
+        js = json.loads(json.dumps(holder.to_json_like()))
+        with warnings.catch_warnings():
+            warnings.simplefilter("ignore")
+            back = ns.s.Schema.from_json_like(js) if in_schema else ns.r.Rule.from_json_like(js)
+    except Exception as e:
+        # (a path whose serialisation refuses is outside the fragment)
+        out.label("refused-or-raised")
+        out.nontrivial = False
+        return out
+    try:
+        if in_schema:
+            a, b = holder.validate(copy.deepcopy(doc)), back.validate(copy.deepcopy(doc))
+            sa = (a.is_valid, a.num_failures, [[exact(tuple(f.path)) for f in rt.failures] for rt in a.rule_tests], exact(a.cast_data))
+            sb = (b.is_valid, b.num_failures, [[exact(tuple(f.path)) for f in rt.failures] for rt in b.rule_tests], exact(b.cast_data))
+        else:
+            a, b = holder.test(copy.deepcopy(doc)), back.test(copy.deepcopy(doc))
+            sa = (a.is_valid, [exact(tuple(f.path)) for f in a.failures], exact(a.data.get_original() if hasattr(a.data, "get_original") else a.data))
+            sb = (b.is_valid, [exact(tuple(f.path)) for f in b.failures], exact(b.data.get_original() if hasattr(b.data, "get_original") else b.data))
+    except Exception as e:
+        out.exc("held-cast-behaviour", e)
+        return out
+    if sa != sb:
+        out.add("same-behaviour", "same-behaviour|caller-held-cast", f"original now: {show(sa,250)}; rebuilt from its serialised form: {show(sb,250)}")
+    return out
+
+
 def tests(tier):
-    return [TestSpec("schema-json", gen_case, body, {"quick": 3000, "thorough": 250000}, tape=3072, fuzz={"thorough": 15000})]
+    return [TestSpec("caller-held-cast", gen_held, body_held, {"quick": 600, "thorough": 50000}, tape=2048),
+            TestSpec("schema-json", gen_case, body, {"quick": 3000, "thorough": 250000}, tape=3072, fuzz={"thorough": 15000})]
